@@ -776,6 +776,34 @@ def handler_table(module):
     return out
 
 
+LOOKUP_ERRORS = {'KeyError', 'IndexError', 'LookupError', 'Exception', 'BaseException', '<bare>'}
+
+
+def guarded_lookups(module):
+    """{qualname: sorted texts of the subscript reads that sit in a try body whose handlers catch a lookup error}: a missing key *there* is absorbed by the handler."""
+    out = {}
+    for qual, fn in module.functions.items():
+        found = []
+        for node in walk_local(fn):
+            if not isinstance(node, ast.Try):
+                continue
+            caught = set()
+            for h in node.handlers:
+                if h.type is None:
+                    caught.add('<bare>')
+                else:
+                    caught |= {u(e).split('.')[-1] for e in (h.type.elts if isinstance(h.type, ast.Tuple) else [h.type])}
+            if not caught & LOOKUP_ERRORS:
+                continue
+            for st in node.body:
+                for n in ast.walk(st):
+                    if isinstance(n, ast.Subscript) and isinstance(n.ctx, ast.Load) and not isinstance(n.slice, ast.Slice):
+                        found.append(u(n))
+        if found:
+            out[qual] = sorted(found)
+    return out
+
+
 def handlers_unchanged(ck, rels, rule='EXC-handlers'):
     import json
     import os
@@ -799,6 +827,21 @@ def handlers_unchanged(ck, rels, rule='EXC-handlers'):
                       qual, len(b), '; new or widened: {}'.format(extra) if extra else '', '; removed or narrowed: {}'.format(missing) if missing else '') +
                   ('' if not (extra or missing) else ' -- which errors this function absorbs (and what it does then) changed'),
                   key='{}|{}|{}'.format(rule, rel, qual))
+        # which lookups a lookup-error handler covers: a lookup moved under it turns "an unknown name is an error" into "is skipped"
+        now_l, want_l = guarded_lookups(module), ref.get('#lookups', {}).get(rel, {})
+        for qual in sorted(set(now_l) | set(want_l)):
+            if qual not in module.functions:
+                continue
+            a, b = list(now_l.get(qual, [])), list(want_l.get(qual, []))
+            extra = list(a)
+            for t in b:
+                if t in extra:
+                    extra.remove(t)
+            n += 1
+            ck.ob(rule, module.loc(module.functions[qual]), not extra,
+                  '{}: the lookups covered by a KeyError/IndexError handler are the triaged ones ({}){}'.format(
+                      qual, len(b), '' if not extra else '; now also covered: {} -- a key missing there is absorbed by the handler instead of being an error'.format(extra)),
+                  key='{}|{}|{}|lookups'.format(rule, rel, qual))
     ck.extra['handlers_compared'] = n
 
 
@@ -946,3 +989,174 @@ def residue_graph_rules(ck, rule):
             ok = False
     ck.ob(rule, gu.loc(icv), ok, '_items_with_common_values examines every attribute of every node the same way: an excluded key is skipped for each node (also when there is only one), '
           'and a key counts as common only when all nodes have it with equal values', key=rule + '|residue-graph|common-values')
+
+
+# ----------------------------------------------------------------------------------------------------------------------
+def no_param_inplace_update(ck, rels, rule='ALIAS-caller-object'):
+    """`p += ..` / `p *= ..` on a parameter that the function treats as a collection (len, iteration, indexing) extends the *caller's* list in place, where
+    `p = p + ..` made a new one.  The pinned tree has no augmented assignment to such a parameter; a new one is reported.  (Numbers and strings are
+    immutable: an augmented assignment to a parameter that is never sized / iterated / indexed, or whose right-hand side is text, is left alone.)"""
+    n = 0
+    for rel in rels:
+        m = ck.index.mod(rel)
+        for qual, fn in m.functions.items():
+            a = fn.args
+            params = {x.arg for x in a.posonlyargs + a.args + a.kwonlyargs} - {'self', 'cls'}
+            if not params:
+                continue
+            n += 1
+            for node in walk_local(fn):
+                if not (isinstance(node, ast.AugAssign) and isinstance(node.target, ast.Name) and node.target.id in params and isinstance(node.op, (ast.Add, ast.Mult, ast.BitOr, ast.BitAnd, ast.Sub, ast.BitXor))):
+                    continue
+                p = node.target.id
+                # rebound to a fresh object before this statement?  (p = list(p); p += ..) is fine
+                rebound = any(isinstance(s, ast.Assign) and any(isinstance(t, ast.Name) and t.id == p for t in s.targets) and s.lineno < node.lineno for s in walk_local(fn))
+                textual = isinstance(node.value, (ast.JoinedStr,)) or (isinstance(node.value, ast.Constant) and isinstance(node.value.value, (str, bytes))) or \
+                    (isinstance(node.value, ast.Call) and call_attr(node.value) in ('format', 'join', 'str'))
+                numeric_rhs = isinstance(node.value, ast.Constant) and isinstance(node.value.value, (int, float)) and isinstance(node.op, (ast.Add, ast.Sub))
+                sized = False
+                for x in walk_local(fn):
+                    if isinstance(x, ast.Call) and call_name(x) in ('len', 'zip', 'enumerate', 'list', 'tuple', 'sorted', 'iter') and any(isinstance(arg, ast.Name) and arg.id == p for arg in x.args):
+                        sized = True
+                    elif isinstance(x, (ast.For, ast.comprehension)) and isinstance(x.iter, ast.Name) and x.iter.id == p:
+                        sized = True
+                    elif isinstance(x, ast.Subscript) and isinstance(x.value, ast.Name) and x.value.id == p:
+                        sized = True
+                if sized and not rebound and not textual and not numeric_rhs:
+                    ck.ob(rule, m.loc(node), False, '{}: `{}` updates the parameter `{}` in place -- for a list argument this changes the caller\'s object '
+                          '(and whatever else holds it, e.g. a processor\'s configured value) instead of making a new one'.format(qual, u(node), p),
+                          key='{}|{}|{}|{}'.format(rule, rel, qual, p))
+    ck.ob(rule, rels[0] if rels else '-', True, 'no collection-like parameter is updated in place with an augmented assignment ({} functions with parameters read)'.format(n),
+          key=rule + '|scan|' + ','.join(rels))
+
+
+# ----------------------------------------------------------------------------------------------------------------------
+def rebuilt_atom_identity(ck, rule):
+    """repair_graph.repair_residue: an atom that is rebuilt belongs to the residue it is rebuilt in -- it receives the residue's chain, number, name,
+    insertion code and pending mutation / modification requests.  The statements that build the new atom's attributes from the residue node are
+    interpreted on a sample residue (spelling-independent: blacklist loop, whitelist comprehension, dict(...) + del ...)."""
+    from .. import interp
+    rg = ck.index.mod('vermouth/processors/repair_graph.py')
+    fn = rg.func('repair_residue')
+    ck.analysed(rg, fn)
+    adds = [c for c in walk_local(fn) if isinstance(c, ast.Call) and call_attr(c) == 'add_node' and u(c.func.value) == param_names(fn)[0] and
+            any(k.arg is None for k in c.keywords)]
+    ok = len(adds) == 1
+    detail = 'the insertion of the rebuilt atom (`molecule.add_node(idx, **attributes)`) was not found uniquely'
+    if ok:
+        var = next(u(k.value) for k in adds[0].keywords if k.arg is None)
+        stmt = rg.stmt_of(adds[0])
+        block = None
+        for node in ast.walk(fn):
+            for fld in ('body', 'orelse'):
+                sub = getattr(node, fld, None)
+                if isinstance(sub, list) and any(s is stmt for s in sub):
+                    block = sub
+        starts = [i for i, s in enumerate(block or []) if isinstance(s, ast.Assign) and any(isinstance(t, ast.Name) and t.id == var for t in s.targets)]
+        ok = bool(starts)
+        detail = 'the statements building `{}` were not found before the insertion'.format(var)
+        if ok:
+            i0 = starts[0]
+            i1 = next((i for i in range(i0 + 1, len(block)) if 'reference.nodes' in u(block[i]) or block[i] is stmt), len(block))
+            sample = {'chain': 'Q', 'resid': 17, 'resname': 'XYZ', 'insertion_code': 'C', 'mutation': ['ALA'], 'modification': ['N-ter'],
+                      'match': {1: 2}, 'found': 'FOUND', 'reference': 'REFERENCE', 'nnodes': 3, 'nedges': 2, 'density': 0.5}
+            env = {param_names(fn)[1]: dict(sample)}
+            try:
+                interp.run_stmts(block[i0:i1], env)
+                got = env.get(var)
+                must = ['chain', 'resid', 'resname', 'insertion_code', 'mutation', 'modification']
+                lost = [k for k in must if not isinstance(got, dict) or got.get(k) != sample[k]]
+                ok = not lost
+                detail = 'lost on the way: {}'.format(lost) if lost else 'all of {} arrive'.format(must)
+            except interp.Unsupported as err:
+                ok, detail = False, 'code outside the interpretable fragment: {}'.format(err)
+            except interp.Returned:
+                ok, detail = False, 'returns while building the atom'
+    ck.ob(rule, rg.loc(fn), ok, 'a rebuilt atom carries the identity of its residue (chain, number, name, insertion code) and its pending mutation / modification requests -- ' + detail,
+          key=rule + '|rebuilt-atom-identity')
+
+
+# ----------------------------------------------------------------------------------------------------------------------
+def _param_key_reads(fn, param):
+    """String keys a function reads from its parameter `param` (a mapping): {'k', ...}; None when the parameter is also used in a way that is not a keyed
+    read (iterated, handed on whole, ...) -- then every item of it may matter."""
+    reads = set()
+    for n in walk_local(fn):
+        if not (isinstance(n, ast.Name) and n.id == param and isinstance(n.ctx, ast.Load)):
+            continue
+        return_unknown = True
+        # find the immediate context of this occurrence
+        for anc in ast.walk(fn):
+            if isinstance(anc, ast.Subscript) and anc.value is n and isinstance(anc.slice, ast.Constant) and isinstance(anc.slice.value, str) and isinstance(anc.ctx, ast.Load):
+                reads.add(anc.slice.value)
+                return_unknown = False
+            elif isinstance(anc, ast.Call) and isinstance(anc.func, ast.Attribute) and anc.func.value is n and anc.func.attr == 'get' and anc.args and \
+                    isinstance(anc.args[0], ast.Constant) and isinstance(anc.args[0].value, str):
+                reads.add(anc.args[0].value)
+                return_unknown = False
+            elif isinstance(anc, ast.Compare) and len(anc.ops) == 1 and isinstance(anc.ops[0], (ast.In, ast.NotIn)) and anc.comparators[0] is n and \
+                    isinstance(anc.left, ast.Constant) and isinstance(anc.left.value, str):
+                reads.add(anc.left.value)
+                return_unknown = False
+        if return_unknown:
+            return None
+    return reads
+
+
+def local_memo_tables(ck, rels, rule='CACHE-key'):
+    """`if key not in table: table[key] = f(x, ..)` with a table local to the function: the key must determine everything f reads from x.  For an
+    argument that is a mapping (a node's attribute dictionary), the string keys the callee reads from it must all be read by the key expression
+    from that same object."""
+    n = 0
+    for rel in rels:
+        module = ck.index.mod(rel)
+        for qual, fn in module.functions.items():
+            tables = {name for name in {t.id for s in walk_local(fn) if isinstance(s, ast.Assign) for t in s.targets if isinstance(t, ast.Name)}
+                      if (lambda d: d is not None and (isinstance(d, ast.Dict) and not d.keys or (isinstance(d, ast.Call) and call_name(d) == 'dict' and not d.args and not d.keywords)))(single_def(fn, name))}
+            if not tables:
+                continue
+            for st, cond, env in stmts_with_env(fn, lambda s: isinstance(s, ast.If)):
+                t = st.test
+                if not (isinstance(t, ast.Compare) and len(t.ops) == 1 and isinstance(t.ops[0], ast.NotIn) and isinstance(t.comparators[0], ast.Name) and t.comparators[0].id in tables):
+                    continue
+                table = t.comparators[0].id
+                fills = [s for s in st.body if isinstance(s, ast.Assign) and any(isinstance(tg, ast.Subscript) and u(tg.value) == table and u(tg.slice) == u(t.left) for tg in s.targets)
+                         and isinstance(s.value, ast.Call)]
+                if len(fills) != 1:
+                    continue
+                call = fills[0].value
+                callee = module.functions.get(call_name(call) or '')
+                n += 1
+                key_expr = flow.subst(t.left, env)
+                key_text = u(key_expr)
+                problems = []
+                if callee is None:
+                    continue
+                cparams = param_names(callee)
+                for i, arg in enumerate(call.args):
+                    if i >= len(cparams) or isinstance(arg, ast.Constant):
+                        continue
+                    arg_text = u(flow.subst(arg, env))
+                    inner = {id(x.value) for x in ast.walk(key_expr) if isinstance(x, (ast.Subscript, ast.Attribute))}
+                    if any(u(x) == arg_text and id(x) not in inner for x in ast.walk(key_expr) if isinstance(x, ast.expr)):
+                        continue        # the argument itself is part of the key
+                    reads = _param_key_reads(callee, cparams[i])
+                    if reads is None:
+                        # used whole: the key must mention the argument itself, or the argument must not vary between the fills
+                        loops = [l for l in module.ancestors(st) if isinstance(l, (ast.For, ast.While))]
+                        bound = {x.id for l in loops for x in ast.walk(l) if isinstance(x, ast.Name) and isinstance(x.ctx, ast.Store)}
+                        if {x.id for x in ast.walk(arg) if isinstance(x, ast.Name)} & bound:
+                            problems.append('`{}` is used whole by {} and varies between iterations, but is not part of the key'.format(u(arg), callee.name))
+                        continue
+                    in_key = set()
+                    for x in ast.walk(key_expr):
+                        if isinstance(x, ast.Subscript) and u(x.value) == arg_text and isinstance(x.slice, ast.Constant):
+                            in_key.add(x.slice.value)
+                        elif isinstance(x, ast.Call) and isinstance(x.func, ast.Attribute) and x.func.attr == 'get' and u(x.func.value) == arg_text and x.args and isinstance(x.args[0], ast.Constant):
+                            in_key.add(x.args[0].value)
+                    missing = sorted(reads - in_key)
+                    if missing:
+                        problems.append('{} reads {} of `{}`, the key `{}` does not'.format(callee.name, missing, u(arg), key_text[:120]))
+                ck.ob(rule, module.loc(st), not problems, '{}: memo table `{}` filled with `{}`: the key determines what the computation reads{}'.format(
+                    qual, table, u(call)[:80], '' if not problems else ' -- NOT: ' + '; '.join(problems)), key='{}|memo|{}|{}|{}'.format(rule, rel, qual, table))
+    ck.ob(rule, rels[0] if rels else '-', True, 'local memo tables (`if key not in table: table[key] = f(..)`) examined: {}'.format(n), key=rule + '|memo-scan|' + ','.join(rels))
